@@ -595,6 +595,19 @@ func genC09Plan(r *zsim.Rng) *sysPlan {
 		}
 		p.Events = append(p.Events, sysEvent{Kind: "keys", Keys: "f10", Tag: "yank"}, sysEvent{Kind: "settle"})
 	}
+	if p.Multi != 0 && r.Chance(1, 8) {
+		// select-all is about the lines listed, not about how many are selected (wave 18): everything under one
+		// query is selected, the query changes to one with other - and mostly fewer - results, select-all again
+		p.Args = append(p.Args, "--bind", "shift-right:select-all", "--bind", "insert:change-query(b)", "--bind", "shift-left:change-query(cd)")
+		ch := pick(r, "a", "e", "f")
+		p.Events = append(p.Events, sysEvent{Kind: "keys", Keys: ch, Tag: "char:" + ch}, sysEvent{Kind: "settle"},
+			sysEvent{Kind: "keys", Keys: "shift-right", Tag: "select-all"}, sysEvent{Kind: "settle"})
+		for _, k := range []string{"insert", "shift-left"}[r.Intn(2):] {
+			tag := map[string]string{"insert": "change-query(b)", "shift-left": "change-query(cd)"}[k]
+			p.Events = append(p.Events, sysEvent{Kind: "keys", Keys: k, Tag: tag}, sysEvent{Kind: "settle"},
+				sysEvent{Kind: "keys", Keys: "shift-right", Tag: "select-all"}, sysEvent{Kind: "settle"})
+		}
+	}
 	nev := r.Range(1, 60)
 	settleEach := !r.Chance(1, 4)
 	for i := 0; i < nev; i++ {
